@@ -140,3 +140,36 @@ Inductive wreach (H : heap) : hv -> rkind -> addr -> Prop :=
 (* a is related to a' by R = pm U mm, as a node of kind k *)
 Definition related (pm mm : amap) (k : rkind) (a a' : addr) : Prop :=
   match k with RCell => In (a, a') pm | RMap => In (a, a') mm | RArr => False end.
+
+(* ---- kind-correct heaps: what makes the copier succeed (never IllFormed) ---- *)
+(* the dynamic value of an interface is a concrete value *)
+Fixpoint shape_ok (v : hv) : bool :=
+  match v with
+  | HIface _ x => match x with HPriv _ | HNilIface | HIface _ _ => false | _ => shape_ok x end
+  | HStruct l | HArray l => forallb shape_ok l
+  | _ => true
+  end.
+
+(* every reference leads to an object of the right kind; every slice lies inside its backing array *)
+Definition refs_ok (h : heap) (rs : list (rkind * addr)) : bool :=
+  forallb (fun kb => match hget h (snd kb) with Some o => rkind_eqb (obj_kind o) (fst kb) | None => false end) rs.
+
+Definition slices_ok (h : heap) (ss : list sref) : bool :=
+  forallb (fun s => match hget h (s_arr s) with Some (OArr es) => slice_ok s es | _ => false end) ss.
+
+Definition obj_shape_ok (o : obj) : bool :=
+  match o with
+  | OCell v => shape_ok v
+  | OMap kvs => forallb (fun kv => shape_ok (fst kv) && shape_ok (snd kv)) kvs
+  | OArr es => forallb shape_ok es
+  end.
+
+Definition wf_kindsb (h : heap) : bool :=
+  forallb (fun ao => refs_ok h (obj_refs (snd ao)) && slices_ok h (obj_islices (snd ao)) && obj_shape_ok (snd ao)) h.
+
+Definition root_kindsb (h : heap) (v : hv) : bool :=
+  refs_ok h (refs v) && slices_ok h (inline_slices v) && shape_ok v.
+
+(* the full decidable guard: finite, closed, ranked, kind-correct *)
+Definition c03_guard_total (h : heap) (n0 : N) (R D : nat) (rk : list (addr * nat)) (v : hv) : bool :=
+  c03_guard h n0 R D rk v && wf_kindsb h && root_kindsb h v.
